@@ -176,3 +176,13 @@ PROPS.update({
 HOOK_COMMITS = ["8ffd056"]
 FIX_COMMITS = ["f23ae2b", "0a7a8ec", "6f3a6a3", "7110a3c", "3bb8a42", "efa1406"]
 NOT_YET = {}
+
+# which regenerated tables a property's theorems / deciders depend on
+TABLE_DEPS = {
+    "C02": ["CtrlConsts", "EnumTables"],
+    "C04": ["NewtypeTables", "CtrlConsts"],
+    "C05": ["NewtypeTables"],
+    "C16": ["CtrlConsts"],
+    "C18": ["NewtypeTables"],
+    "C19": ["SerdeShapes"],
+}
